@@ -15,18 +15,31 @@ RULE = ("Algorithm L consumes continuous uniforms, so this property is decided s
         "compared cell by cell with 1/C(n,k) (exact two-sided binomial tail, Bonferroni over the cells, alarm only if p < 1e-9 AND an "
         "independent confirmation run with 4N executions gives p < 1e-6); n = k is asserted deterministically (everything retained); store_targets alternates between the pairs (the law must not depend on it) and with store_targets the observations are EQUAL-valued dicts identified by their targets; "
         "for larger pairs (5,40), (10,100), (100,300 = the explainers' default size) and Hypothesis-drawn pairs (k<=12, n<=k+40) the "
-        "per-arrival inclusion counts are compared with k/n (one pair with another seeded library object constructed next to the reservoir in every run); BLOCKS: the documented default size (UniformReservoirStorage(), 1000 slots) on 6000 arrivals (thorough: 40000; k=100 on 3e6; k=300 on 9000) - well over 1024 replacements per run - with the retained count per sixth of the stream bounded by Hoeffding's inequality for sampling without replacement (rigorous, delta 1e-9); LONG streams (k=1, n=30000; k=2, n=25000 - beyond 1e4*k, where numerical guards on the weight would bite) are tested per decile of the stream. N = 4e4 per pair (quick), 2e6 spread over 16 workers (thorough). "
+        "per-arrival inclusion counts are compared with k/n (one pair with another seeded library object constructed next to the reservoir in every run; one pair where a deep copy taken after a third of the stream is fed a long what-if continuation and dropped while the original carries on); BLOCKS: the documented default size (UniformReservoirStorage(), 1000 slots) on 6000 arrivals (thorough: 40000; k=100 on 3e6; k=300 on 9000) - well over 1024 replacements per run - with the retained count per sixth of the stream bounded by Hoeffding's inequality for sampling without replacement (rigorous, delta 1e-9); LONG streams (k=1, n=30000; k=2, n=25000 - beyond 1e4*k, where numerical guards on the weight would bite) are tested per decile of the stream. N = 4e4 per pair (quick), 2e6 spread over 16 workers (thorough). "
         "Non-trivial: n >= k+2 (at least two skip computations); distinct = distinct (k, n, retained subset) outcomes observed.")
 ASSUMPTIONS = ["CPython's Mersenne Twister stream, consumed sequentially from one seed derived from VERIF_SEED, yields independent runs",
                "deviations below the reported minimal detectable effect pass"]
 
 
-def one_run(k, n, st=None):
-    """store_targets alternates with (k + n) unless given: the sampling law must not depend on whether targets are kept."""
+def one_run(k, n, st=None, fork=False):
+    """store_targets alternates with (k + n) unless given: the sampling law must not depend on whether targets are kept.
+    fork: after a third of the stream a deep copy is taken, fed a long what-if continuation and dropped; the ORIGINAL carries on."""
     from ixai.storage import UniformReservoirStorage
     if st is None:
         st = (k + n) % 2 == 0
     s = UniformReservoirStorage(size=k, store_targets=st) if n % 3 else UniformReservoirStorage(k, st)   # keyword and positional
+    if fork:
+        import copy
+        cut = max(k, n // 3)
+        for i in range(1, cut + 1):
+            s.update({'id': i})
+        what_if = copy.deepcopy(s)
+        for i in range(3 * n):
+            what_if.update({'id': -1 - i})
+        del what_if
+        for i in range(cut + 1, n + 1):
+            s.update({'id': i})
+        return tuple(sorted(x['id'] for x in s.get_data()[0]))
     if st:
         # EQUAL observations (a binary feature): arrivals are identified by the target stored with them
         for i in range(1, n + 1):
@@ -71,10 +84,13 @@ def inclusion_check(ctx, k, n, N, seen, neighbour=False):
         random.seed(ctx.seed_for(f'c08:incl:{k}:{n}:{stage}'))
         counts = {}
         for _ in range(m):
-            if neighbour:
-                from ixai.storage import TreeStorage
-                TreeStorage(cat_feature_names=['c'], num_feature_names=['a'], seed=42)
-            r = one_run(k, n)
+            if neighbour == 'fork':
+                r = one_run(k, n, st=False, fork=True)
+            else:
+                if neighbour:
+                    from ixai.storage import TreeStorage
+                    TreeStorage(cat_feature_names=['c'], num_feature_names=['a'], seed=42)
+                r = one_run(k, n)
             for t in r:
                 counts[t] = counts.get(t, 0) + 1
             if n >= k + 2 and len(seen) < 200000:
@@ -171,6 +187,8 @@ def run_pair(case, ctx=None):
         ok, info = block_check(ctx, k, n, N, seen)
     elif case['kind'] == 'inclusion+neighbour':
         ok, info = inclusion_check(ctx, k, n, N, seen, neighbour=True)
+    elif case['kind'] == 'inclusion+fork':
+        ok, info = inclusion_check(ctx, k, n, N, seen, neighbour='fork')
     else:
         ok, info = inclusion_check(ctx, k, n, N, seen)
     if not ok:
@@ -195,7 +213,7 @@ def run(ctx):
     N = 40000 if not ctx.thorough() else 125000
     pairs = [(k, n, 'subset') for k in (1, 2, 3) for n in range(k, k + 7)]
     big = [(5, 40, 'inclusion'), (10, 100, 'inclusion'), (100, 300, 'inclusion'), (1, 30000, 'long'), (2, 25000, 'long'),
-           (3, 12, 'inclusion+neighbour'), (1000, 6000, 'block')]
+           (3, 12, 'inclusion+neighbour'), (3, 30, 'inclusion+fork'), (1000, 6000, 'block')]
     if ctx.thorough():
         big += [(1000, 40000, 'block'), (100, 3000000, 'block'), (300, 9000, 'block')]
     # Hypothesis-drawn additional pairs (deterministic in the seed)
@@ -233,6 +251,9 @@ def run(ctx):
         elif kind == 'inclusion+neighbour':
             n_runs = max(N // 8, 5000)
             ok, info = inclusion_check(ctx, k, n, n_runs, seen, neighbour=True)
+        elif kind == 'inclusion+fork':
+            n_runs = max(N // 8, 5000)
+            ok, info = inclusion_check(ctx, k, n, n_runs, seen, neighbour='fork')
         elif kind == 'subset':
             ok, info = subset_check(ctx, k, n, n_runs, seen)
         else:
